@@ -30,6 +30,9 @@ func runC11(c *Ctx) {
 	c11MarkDirty(c, "C11.6")
 	c11ParentUpdate(c, "C11.7")
 	c01RootRelocation(c, "C11.8")
+	ruleCatalogNameMatch(c, "C11.9")
+	c02RedoGuard(c, "C11.10")
+	ruleStaleDerived(c, "C11.11")
 	// advisory: direct indexing
 	for _, name := range []string{"storage.(*btreeNode).updateCell", "storage.(*btreeNode).split", "storage.WALBatch.replay"} {
 		f := c.W.F(name)
